@@ -4,12 +4,15 @@
     (C10: outcome class only, the code before / after the fix selected by [fx], the capacity of
     the hash slice a parameter).
 
-    Agreement: C04's [HiOk] / [HiErr] are C10's [Ok] / [Err] for both versions of the code and any
-    capacity.  Difference found: where C04's model says [HiPanic] (fewer hashes than the files
-    need) the code NOW returns an error - repo commit 6a06397 "fix: ComputeHashInfo checks the
-    number of hashes before slicing them"; C04's model is the code before that commit (with
-    cap = len), C10's [fx = true] is the faithful one.  C04 only evaluates signatures with
-    the right number of hashes ([hashinfo_groups]).  Proofs only. *)
+    Agreement: the outcome class of C04's model is that of C10's model of the code as it is now
+    ([fx = true]) for every list of sizes, every number of hashes and any capacity - including
+    a signature with fewer hashes than the files need, where both say "error"; and where C04
+    says [HiOk] the code before the fix ([fx = false]) succeeded too.  (History: Sig/HashInfo.v
+    used to say [HiPanic] for missing hashes - the code before repo commit 6a06397 "fix:
+    ComputeHashInfo checks the number of hashes before slicing them", with cap = len; the former
+    [hash_info_models_differ_on_missing_hashes] recorded that.  The model was repaired, the
+    example, now false, is deleted and replaced by [hash_info_missing_hashes_example].)
+    Proofs only. *)
 From Coq Require Import ZifyBool ZifyNat ZifyN.
 From Wharf Require Import Base.Prelude.
 From Wharf Require Sig.Sign Sig.SigFile Sig.HashInfo Patch.Malformed.
@@ -69,30 +72,42 @@ Section HashInfoAgree.
 End HashInfoAgree.
 
 (** ComputeHashInfo: the C04 transcription against the C10 transcription.  [cap]: the capacity of
-    the hash slice (at least its length); [fx]: the code before / after commit 6a06397 *)
+    the hash slice (at least its length); [fx]: the code before / after commit 6a06397.
+    Unconditional for the code as it is ([fx = true]); the code before the fix agrees wherever it
+    does not panic (it panics, with cap = len, exactly in the missing-hashes case the fix turned
+    into an error) *)
 Theorem hash_info_models_agree_lemma :
   forall (X : Type) (bs : N) (sizes : list N) (hashes : list X),
     (0 < bs)%N ->
     let n := Z.of_nat (length hashes) in
-    match HI.compute_hash_info bs sizes hashes with
-    | HI.HiOk _ => forall fx cap, n <= cap -> MF.hash_info fx (Z.of_N bs) (map Z.of_N sizes) 0 n cap = MF.Ok
-    | HI.HiErr => forall fx cap, n <= cap -> MF.hash_info fx (Z.of_N bs) (map Z.of_N sizes) 0 n cap = MF.Err
-    | HI.HiPanic =>
-        (forall cap, n <= cap -> MF.hash_info true (Z.of_N bs) (map Z.of_N sizes) 0 n cap = MF.Err) /\
-        MF.hash_info false (Z.of_N bs) (map Z.of_N sizes) 0 n n = MF.Panic MF.SHashInfoSlice
-    end.
+    (forall cap, n <= cap ->
+       MF.hash_info true (Z.of_N bs) (map Z.of_N sizes) 0 n cap =
+       match HI.compute_hash_info bs sizes hashes with HI.HiOk _ => MF.Ok | HI.HiErr => MF.Err end) /\
+    (forall gs, HI.compute_hash_info bs sizes hashes = HI.HiOk gs ->
+       forall fx cap, n <= cap -> MF.hash_info fx (Z.of_N bs) (map Z.of_N sizes) 0 n cap = MF.Ok) /\
+    (forall cap, n <= cap ->
+       MF.hash_info false (Z.of_N bs) (map Z.of_N sizes) 0 n cap <> MF.hash_info true (Z.of_N bs) (map Z.of_N sizes) 0 n cap ->
+       HI.compute_hash_info bs sizes hashes = HI.HiErr).
 Proof.
   intros X bs sizes hashes Hbs n. unfold HI.compute_hash_info.
   pose proof (hi_loop_agrees bs Hbs hashes sizes 0%N) as H. change (Z.of_N 0) with 0 in H. fold n in H.
-  destruct (HI.hi_loop bs sizes hashes 0) as [[gs ix]|]; [|exact H].
-  destruct (N.eqb_spec ix (N.of_nat (length hashes))) as [E|E]; intros fx cap Hcap; rewrite (H fx cap Hcap).
-  - destruct (Z.eqb_spec (Z.of_N ix) n); [reflexivity|unfold n in *; lia].
-  - destruct (Z.eqb_spec (Z.of_N ix) n); [unfold n in *; lia|reflexivity].
+  destruct (HI.hi_loop bs sizes hashes 0) as [[gs ix]|].
+  - destruct (N.eqb_spec ix (N.of_nat (length hashes))) as [E|E]; (split; [|split]).
+    + intros cap Hcap. rewrite (H true cap Hcap). destruct (Z.eqb_spec (Z.of_N ix) n); [reflexivity|unfold n in *; lia].
+    + intros gs' _ fx cap Hcap. rewrite (H fx cap Hcap). destruct (Z.eqb_spec (Z.of_N ix) n); [reflexivity|unfold n in *; lia].
+    + intros cap Hcap Hne. exfalso. apply Hne. rewrite !(H _ cap Hcap). reflexivity.
+    + intros cap Hcap. rewrite (H true cap Hcap). destruct (Z.eqb_spec (Z.of_N ix) n); [unfold n in *; lia|reflexivity].
+    + intros gs' Hgs. discriminate Hgs.
+    + reflexivity.
+  - destruct H as [H1 _]. split; [|split].
+    + intros cap Hcap. apply H1. assumption.
+    + intros gs' Hgs. discriminate Hgs.
+    + reflexivity.
 Qed.
 
-(** two files of 2 bytes at block size 2 and a single hash: C04's model panics, the code now
-    (C10, [fx = true]) returns an error *)
-Lemma hash_info_models_differ_on_missing_hashes_lemma :
-  HI.compute_hash_info 2 [2; 2]%N [tt] = HI.HiPanic /\
+(** two files of 2 bytes at block size 2 and a single hash: an error in C04's model and in the
+    code now (C10, [fx = true]); the code before the fix panicked on the slice expression *)
+Lemma hash_info_missing_hashes_example :
+  HI.compute_hash_info 2 [2; 2]%N [tt] = HI.HiErr /\
   MF.hash_info true 2 [2; 2] 0 1 1 = MF.Err /\ MF.hash_info false 2 [2; 2] 0 1 1 = MF.Panic MF.SHashInfoSlice.
 Proof. repeat split. Qed.
